@@ -24,7 +24,7 @@ def cases(tier, rng, run):
     # the same kind of context presented as a CALL of a dltyped function (all call styles, trailing parameters left at their default)
     for _ in range(6000 if tier == "quick" else 100000):
         c = gen_ctx.gen_ctx(rng)
-        out.append(Case(c.call_line("func", rng.choice(["pos", "kw", "mixed", "kwonly", "posonly"]), omit=rng.choice([0, 0, 1, 2, 3])), "call", {"ctx": c}))
+        out.append(Case(c.rand_call(rng, styles=("pos", "kw", "mixed", "kwonly", "posonly"), omit_p=0.5), "call", {"ctx": c}))
     return out
 
 
